@@ -1152,9 +1152,10 @@ class Generator:
         g0 = self.out.lineno
         self.out.emit("// SLICE (rule R10) of %s :: %s, lines %d-%d; the wrapper signature is synthetic, the statements are verbatim\n"
                       % (file, path[-1], src.line_of(pos_from), src.line_of(pos_to - 1)), "template", rel, lineno)
-        self.out.emit(decl.split("=>")[0].rstrip() + "\n" + sig + "\n{\n" + pre + "\n", "template", rel, lineno)
+        self.out.emit(decl.split("=>")[0].rstrip() + "\n" + sig + "\n{\n", "template", rel, lineno)
         if self.probe:
             self.out.emit("proof { assert(false); } // VACUITY-PROBE\n", "inserted")
+        self.out.emit(pre + "\n", "template", rel, lineno)
         self.emit_chunks(ed.render(), src)
         tail = decl.split("=>")[1].strip() if "=>" in decl else ""
         self.out.emit(post + "\n" + tail + "\n}\n\n", "template", rel, lineno)
